@@ -105,6 +105,65 @@ def edge_programs(tier):
                 for t in types:
                     body.append("echo(v%d.f(%s));" % (st, args[t]))
             progs.append(("hierarchy:d%d:o%d" % (depth, nover), main_prog(body, src)))
+    # e2. the same hierarchies as generic classes instantiated at run time (their method tables are built lazily, on first use)
+    for depth in range(1, 5):
+        for nover in range(1, 5):
+            types = ["int", "long", "float", "string"][:nover]
+            src = ""
+            for d in range(depth):
+                name = "G%d" % d
+                ext = "" if d == 0 else " extends G%d<T>" % (d - 1)
+                meths = ""
+                for t in types:
+                    mod = "virtual" if d == 0 else ("virtual override" if d < depth - 1 else "override")
+                    meths += " public %s function f(%s a) -> string { return \"%s.%s\"; }" % (mod, t, name, t)
+                ctor = " public constructor(T x) -> %s<T> { %s }" % (name, "super(x);" if d else "this.item = x;")
+                fld = " public T item;" if d == 0 else ""
+                src += "class %s<T>%s {%s%s%s public function only%d() -> T { return this.item; } }\n" % (name, ext, fld, ctor, meths, d)
+            body = []
+            args = {"int": "1", "long": "2L", "float": "1.5f", "string": "\"s\""}
+            for targ, tval in (("int", "7"), ("string", "\"v\"")):
+                for st in range(depth):
+                    v = "v%d%s" % (st, targ[0])
+                    body.append("G%d<%s> %s = new G%d<%s>(%s);" % (st, targ, v, st, targ, tval))
+                    for t in types:
+                        body.append("echo(%s.f(%s));" % (v, args[t]))
+                    body.append("echo(%s.only%d());" % (v, st))
+            progs.append(("generic-hierarchy:d%d:o%d" % (depth, nover), main_prog(body, src)))
+    # e3. destructors that do unusual things with 'this' and with other objects
+    zcls = ("class Z { public int id; public Z other; public constructor(int i) -> Z { this.id = i; this.other = null; } public destructor() -> void { %s } public function get() -> int { return this.id; } }\n"
+            "class Hold { public Z item; public constructor() -> Hold { this.item = null; } }\n"
+            "static class Keep { public static Z z = null; public static Hold h = new Hold(); public static int n = 0; }\n")
+    dtor_bodies = {
+        "store-this-in-static": "Keep.z = this; echo(\"~Z\" + this.id);",
+        "store-this-in-static-holder": "Keep.h.item = this; echo(\"~Z\" + this.id);",
+        "store-this-in-other": "if (this.other != null) { this.other.other = this; } echo(\"~Z\" + this.id);",
+        "call-method-and-count": "Keep.n = Keep.n + this.get(); echo(\"~Z\" + Keep.n);",
+        "allocate-bounded": "if (this.id < 3) { Z t = new Z(this.id + 1); echo(t.get()); } echo(\"~Z\" + this.id);",
+        "drop-partner": "this.other = null; echo(\"~Z\" + this.id);",
+        "null-static-holding-self-partner": "Keep.z = null; echo(\"~Z\" + this.id);",
+    }
+    uses = {
+        "scope-end": ["{ Z a = new Z(1); }", "echo(\"after\");"],
+        "null": ["Z a = new Z(1);", "a = null;", "echo(\"after\");"],
+        "partner-outlives": ["Z keep = new Z(9);", "{ Z a = new Z(1); a.other = keep; }", "echo(\"after\");", "if (keep.other != null) { echo(keep.other.id); echo(keep.other.get()); }"],
+        "partner-dies-first": ["Z a = new Z(1);", "{ Z b = new Z(2); a.other = b; b.other = a; }", "a.other = null;", "echo(\"after\");"],
+        "static-partner": ["Keep.z = new Z(5);", "{ Z a = new Z(1); a.other = Keep.z; }", "echo(\"after\");"],
+        "end-of-main": ["Z a = new Z(1);", "Z b = new Z(2);", "a.other = b;", "echo(\"last\");"],
+    }
+    after = ["if (Keep.z != null) { echo(Keep.z.id); echo(Keep.z.get()); Keep.z.id = 4; Z again = Keep.z; Keep.z = null; echo(again.get()); }",
+             "if (Keep.h.item != null) { echo(Keep.h.item.id); Keep.h.item = null; }", "echo(Keep.n);", "echo(\"end\");"]
+    for dn, db in dtor_bodies.items():
+        for un, ub in uses.items():
+            progs.append(("dtor-edge:%s:%s" % (dn, un), main_prog(ub + after, zcls % db)))
+    # e4. long chains / wide fans of objects built in a loop (no program recursion), run with a production-sized native stack
+    node2 = "class Node { public int v; public Node next; public Node[] kids; public constructor(int v, Node n) -> Node { this.v = v; this.next = n; } }\n"
+    noded = "class Node { public int v; public Node next; public constructor(int v, Node n) -> Node { this.v = v; this.next = n; } public destructor() -> void { if (this.v % 5000 == 0) { echo(\"~\" + this.v); } } }\n"
+    for n in ((300, 3000, 20000) if tier != "thorough" else (300, 3000, 20000, 50000)):
+        progs.append(("chain:%d" % n, node2 + main_prog(["Node head = null;", "for (int i = 0; i < %d; i = i + 1) { head = new Node(i, head); }" % n, "echo(head.v);", "head = null;", "echo(\"dropped\");"])))
+        if n <= 20000:
+            progs.append(("chain-dtor:%d" % n, noded + main_prog(["Node head = null;", "for (int i = 0; i < %d; i = i + 1) { head = new Node(i, head); }" % n, "echo(head.v);"])))
+            progs.append(("chain-error-teardown:%d" % n, node2 + main_prog(["Node head = null;", "for (int i = 0; i < %d; i = i + 1) { head = new Node(i, head); }" % n, "int z = 0;", "echo(head.v / z);"])))
     # f. a runtime error at every statement position of programs that hold live objects everywhere
     holder = """class Own { public int id; public qubit q; public Own other; public constructor(int i) -> Own { this.id = i; this.other = null; } public destructor() -> void { echo("~Own" + this.id); } public function poke(Own o) -> int { return this.id + o.id; } }
 class Plain { public int id; public Plain peer; public constructor(int i) -> Plain { this.id = i; this.peer = null; return this; } public destructor() -> void { echo("~Plain" + this.id); } }
@@ -139,7 +198,10 @@ function deep(Own a, Plain b, int z) -> int { Own local = new Own(90); local.oth
 
 def _one(item):
     name, src = item
-    r = vdrv.run_job({"id": "c", "kind": "cli", "opts": {"hook_draws": 1, "timeout_ms": 30000}, "argv": ["bloch", "main.bloch"], "files": {"main.bloch": src}})
+    opts = {"hook_draws": 1, "timeout_ms": 30000}
+    if name.startswith("chain"):
+        opts.update(stack_kb=8192, timeout_ms=240000)      # the stack a shipped binary gets
+    r = vdrv.run_job({"id": "c", "kind": "cli", "opts": opts, "argv": ["bloch", "main.bloch"], "files": {"main.bloch": src}})
     rec = r.rec
     notes = r.ubsan_notes
     if r.crash or rec is None:
